@@ -104,7 +104,7 @@ class C10(adjust.Remember, Prop):
     id = "C10"
     corr_module = "Corr.C10Corr"
     preds = ("corr", "spec", "adj_names", "adj_list_b", "adj_list_c", "adj_list_d", "adj_list_all")
-    quick_n = 2400
+    quick_n = 1800
     thorough_n = 20000
     shard_size = 120
     rule = ("random namespace trees (depth<=3; own aliases, add_task(name=/aliases=/default=), default tasks, default "
